@@ -39,6 +39,11 @@ func HarnessC20Handler() {
 		d2 := DeviceInfo{CapableTypes: rot}
 		verifrt.Assert(d2.HandlerType() == profileType[k], "C20: the handler type does not depend on the order or duplication of the capability list")
 	}
+	// the type of a handler depends on its own capabilities only, whatever handlers were looked at before
+	// (handlers of different devices can carry the same event name over time: event numbers are reused)
+	k2 := verifrt.U8("profile2") % 12
+	d3 := DeviceInfo{CapableTypes: capProfile(k2)}
+	verifrt.Assert(d3.HandlerType() == profileType[k2], "C20: a handler's type depends only on its own capability set, not on handlers seen earlier")
 	verifrt.Cover("C20: handler lemma")
 }
 
